@@ -475,6 +475,87 @@ func checkC07(e *core.Env) {
 			}
 		}
 	})
+	// the same for methods that take a single request (another branch of the server's receive path) and for
+	// unary requests whose body breaks off with a read error
+	serveKind := func(kind Kind, body []byte, end error) (hr []Event, returned bool, code int, pan string) {
+		sc := &Script{Kind: kind, Handler: []Op{{Op: "recv"}, {Op: "recv"}, {Op: "send", Msg: &tpb.Message{Payload: []byte("resp")}}}}
+		ct := httpgrpc.StreamRpcContentType_V1
+		if kind == Unary {
+			sc = &Script{Kind: Unary, Resp: &tpb.Message{Payload: []byte("resp")}}
+			ct = httpgrpc.UnaryRpcContentType_V1
+		}
+		run := svc.NewRun(sc, "http-direct")
+		defer svc.Forget(run)
+		req := httptest.NewRequest("POST", kind.Method(), &cutBody{data: body, endErr: end})
+		req.ContentLength = -1
+		req.Header.Set("Content-Type", ct)
+		req.Header.Set("X-Verif-Run", run.ID)
+		rec := httptest.NewRecorder()
+		pan = guard(func() { srv.ServeHTTP(rec, req) })
+		_, returned = run.HandlerReturn()
+		for _, ev := range run.Events() {
+			if ev.Pan != "" && pan == "" {
+				pan = ev.Who + "." + ev.Op + ": " + ev.Pan
+			}
+		}
+		return run.Rets("h", "recv"), returned, rec.Code, pan
+	}
+	e.Cases("server-cut-single", e.N(10, 80), func(i int, r *rand.Rand) {
+		m := genMsg(r, fmt.Sprintf("c07ss-%d", i), false)
+		if len(m.Payload) > 100 {
+			m.Payload = m.Payload[:100]
+		}
+		msgs := []*tpb.Message{m}
+		if r.Intn(3) == 0 {
+			msgs = append(msgs, &tpb.Message{Payload: []byte("second")})
+		}
+		fb := encodeStream(msgs, nil)
+		for cut := 0; cut <= len(fb.bytes); cut++ {
+			for _, end := range endings {
+				hr, returned, _, pan := serveKind(ServerStream, append([]byte{}, fb.bytes[:cut]...), end.err)
+				e.Eval(fmt.Sprintf("server-cut-single|%v|%s", cut >= fb.msgEnds[0], end.name), true)
+				e.Count("cuts", 1)
+				w := map[string]any{"body_len": len(fb.bytes), "first_frame_ends_at": fb.msgEnds[0], "cut": cut, "ending": end.name}
+				sig := "server-cut-single/" + end.name
+				if pan != "" {
+					e.Violate(sig+"/panic", trunc(pan, 500), w)
+					continue
+				}
+				if !returned || len(hr) == 0 {
+					continue
+				}
+				first := hr[0]
+				if first.Err == nil && (cut < fb.msgEnds[0] || !sameMsg(first.Msg, msgs[0])) {
+					e.Violate(sig+"/fabricated", fmt.Sprintf("request body cut at offset %d of a %d-byte first frame: the handler was given a message", cut, fb.msgEnds[0]), w)
+				}
+				if cut > 0 && cut < fb.msgEnds[0] && first.Err == io.EOF {
+					e.Violate(sig+"/truncation-as-eof", fmt.Sprintf("request body cut inside its only frame (offset %d of %d): the handler saw a clean end of stream", cut, fb.msgEnds[0]), w)
+				}
+				for _, ev := range hr[1:] {
+					if ev.Err == nil {
+						e.Violate(sig+"/second-message", "a second receive on a single-request method handed out a message", w)
+					}
+				}
+			}
+		}
+		// unary: a body that breaks off with a read error is never dispatched
+		body, _ := proto.Marshal(m)
+		for _, cut := range []int{0, 1, len(body) / 2, len(body)} {
+			for _, end := range endings {
+				if end.err == io.EOF || cut > len(body) {
+					continue
+				}
+				_, returned, code, pan := serveKind(Unary, append([]byte{}, body[:cut]...), end.err)
+				e.Eval(fmt.Sprintf("server-unary-body-error|%s", end.name), true)
+				w := map[string]any{"body_len": len(body), "cut": cut, "ending": end.name, "http_status": code}
+				if pan != "" {
+					e.Violate("server-unary-body-error/panic", trunc(pan, 500), w)
+				} else if returned || code == 200 {
+					e.Violate("server-unary-body-error/dispatched", fmt.Sprintf("the unary request body broke off after %d of %d bytes with %s, yet the handler ran=%v and the reply is HTTP %d", cut, len(body), end.name, returned, code), w)
+				}
+			}
+		}
+	})
 	e.Cases("server-prefix", e.N(40, 300), func(i int, r *rand.Rand) {
 		pfx := hostile[i%len(hostile)]
 		if i >= 2*len(hostile) {
